@@ -203,11 +203,19 @@ def ref_exit(ctx, raised, log, f5):
     return None
 
 
-def ref_run(body, r0):
+def ref_run(body, r0, post=False):
     log, f5 = [], []
     ctx = RefCtx('E0', r0)
     raised = ref_body(ctx, body, 'E0', log, f5)
     out = ref_exit(ctx, raised, log, f5)
+    if out is None and post:
+        # ctxt.force_reraise() after the block (the documented way to re-raise
+        # later what was suppressed in the block)
+        if ctx.has_value:
+            out = ctx.saved
+        else:
+            out = 'F5:reinstantiated'
+            f5.append(True)
     return out, len(log), bool(f5)
 
 
@@ -278,7 +286,7 @@ def innermost_frame(exc):
     return name
 
 
-def real_run(body, r0, cls):
+def real_run(body, r0, cls, post=False):
     from oslo_utils import excutils
     logger = CountingLogger()
     e0 = make_e0(cls)
@@ -290,6 +298,8 @@ def real_run(body, r0, cls):
         except BaseException:
             with excutils.save_and_reraise_exception(reraise=r0, logger=logger) as ctx:
                 real_body(excutils, ctx, body, tokens, logger)
+            if post:
+                ctx.force_reraise()
     except BaseException as e:
         tok = tokens.get(id(e))
         if tok is None:
@@ -307,10 +317,15 @@ def _job(job):
            'outcomes': set()}
     for i in range(lo, min(hi, len(progs))):
         body = progs[i]
+        variants = []
         for r0 in (True, False):
-            want_tok, want_log, f5 = ref_run(body, r0)
+            variants.append((r0, False))
+            if ref_run(body, r0)[0] is None:
+                variants.append((r0, True))       # nothing propagated: force_reraise() afterwards
+        for r0, post in variants:
+            want_tok, want_log, f5 = ref_run(body, r0, post)
             for cls in CLASSES:
-                got, dropped, nerr = real_run(body, r0, cls)
+                got, dropped, nerr = real_run(body, r0, cls, post)
                 out['programs'] += 1
                 out['transitions'] += len(body) + 1
                 out['states'].add((want_tok, want_log, r0))
@@ -325,7 +340,7 @@ def _job(job):
                             bad = ('F5-shape', 'expected a re-instantiated exception or TypeError')
                         out['known'] += 1
                         if bad is None and len(out['problems']) < 40:
-                            out['problems'].append({'body': body, 'r0': r0, 'cls': cls,
+                            out['problems'].append({'body': body, 'r0': r0, 'cls': cls, 'post': post,
                                                     'kind': 'F5', 'got': got, 'want': want_tok,
                                                     'sig': True})
                         if bad is None:
@@ -344,6 +359,7 @@ def _job(job):
                                % (got[1], site_of(want_tok, cls)))
                 if bad and len(out['problems']) < 40:
                     out['problems'].append({'body': body, 'r0': r0, 'cls': cls, 'kind': bad[0],
+                                            'post': post,
                                             'detail': bad[1], 'got': got, 'want': want_tok,
                                             'want_log': want_log, 'sig': False})
     out['states'] = len(out['states'])
@@ -552,6 +568,33 @@ def check_raise_with_cause(rep):
                      {'cause': mode})
 
 
+def check_capture_chain(rep):
+    """save_and_reraise_exception().capture().force_reraise() inside a handler
+    re-raises the active exception object; outside a handler capture() refuses."""
+    from oslo_utils import excutils
+    for cls in CLASSES:
+        e0 = make_e0(cls)
+        got = None
+        try:
+            try:
+                raise_site(e0)
+            except BaseException:
+                excutils.save_and_reraise_exception().capture().force_reraise()
+        except BaseException as e:
+            got = e
+        rep.count('evaluations')
+        rep.nontrivial('chain/' + cls)
+        if got is not e0 or innermost_frame(got) != site_of('E0', cls):
+            rep.fail('capture-chain:%s' % cls, {'class': cls, 'got': repr(got)}, {'chain': cls})
+    for fn in ('capture', 'force_reraise'):
+        rep.count('evaluations')
+        try:
+            getattr(excutils.save_and_reraise_exception(), fn)()
+            rep.fail('not-active-accepted:%s' % fn, {}, {'chain': fn})
+        except RuntimeError:
+            pass
+
+
 def run(ctx):
     global _PROGS
     import logging
@@ -576,14 +619,17 @@ def run(ctx):
         rep.count('traces_validated_against_impl', out['programs'])
         rep.count('states', out['states'])
         for p in out['problems']:
-            payload = {'body': repr(p['body']), 'r0': p['r0'], 'cls': p['cls']}
+            payload = {'body': repr(p['body']), 'r0': p['r0'], 'cls': p['cls'],
+                       'post': p.get('post', False)}
             if p['sig']:
                 rep.fail('F5', {'body': repr(p['body']), 'reraise': p['r0'], 'class': p['cls'],
+                                'force_reraise_after_block': p.get('post', False),
                                 'got': repr(p['got'])}, payload,
                          sigs=['F5-force-reraise-caught'])
             else:
                 rep.fail('%s:%s' % (p['kind'], p['cls']),
                          {'body': repr(p['body']), 'reraise': p['r0'], 'class': p['cls'],
+                          'force_reraise_after_block': p.get('post', False),
                           'got': repr(p['got']), 'want': p['want'], 'detail': p['detail'],
                           'want_dropped_logs': p['want_log']}, payload)
     for i, b in enumerate(_PROGS):
@@ -591,6 +637,7 @@ def run(ctx):
     check_filter(rep)
     check_remove_path(rep)
     check_raise_with_cause(rep)
+    check_capture_chain(rep)
     rep.count('distinct_bodies', n)
     rep.sample({'body': ['inner_caught', 'off', ['nested_fail', True, ['raise_new']], 'on'],
                 'initial_reraise': True, 'class': 'NeedsArgs'})
@@ -612,8 +659,9 @@ def replay(payload):
     if 'body' in payload:
         import ast
         body = ast.literal_eval(payload['body'])
-        want_tok, want_log, f5 = ref_run(body, payload['r0'])
-        got, dropped, nerr = real_run(body, payload['r0'], payload['cls'])
+        post = payload.get('post', False)
+        want_tok, want_log, f5 = ref_run(body, payload['r0'], post)
+        got, dropped, nerr = real_run(body, payload['r0'], payload['cls'], post)
         got_tok = got[0] if got else None
         bad = got_tok != want_tok or (not f5 and (dropped != want_log or nerr != want_log)) or \
             (got is not None and want_tok in ('E0', 'FRESH') and
@@ -627,6 +675,8 @@ def replay(payload):
         check_filter(rep)
     elif 'rmpath' in payload:
         check_remove_path(rep)
+    elif 'chain' in payload:
+        check_capture_chain(rep)
     else:
         check_raise_with_cause(rep)
     return {'violates': bool(rep.violations),
